@@ -25,7 +25,8 @@ EXPLANATION = ("(R1) dimension-and-scale inference over both converters, the dat
                "interprocedurally from batt_cap_fn (parameter units inferred from the call arguments); the bisection stops only on "
                "|gain(mid) - target| < tol and searches [ts - M T, 1]; (R7) the fit integrates the battery's own law: each piece of the SoC-gain "
                "function satisfies ds/dT = M resp. M(1-s)/(1-ts) with its entry value and is selected by `start + M T <= ts`, and the "
-               "closed-form start solves ramp-gain(s*) = requested gain exactly - identities decided by computer algebra on the source.")
+               "closed-form start solves ramp-gain(s*) = requested gain exactly - identities decided by computer algebra on the source."
+               ' Added after the mutation matrix: the force_feasible cap applies exactly under the flag and equals max power x (departure - arrival) x period/60 as an identity; the stay handed to the capacity function is exactly departure - arrival; no lookup under a contradicted membership test.')
 NOT_DECIDED = ("convergence of the bisection within the recursion limit and its 1e-9 tolerance (numeric); monotonicity of the gain in the start "
                "(analysis); that the battery built from the fit is charged with exactly the full-rate pilot by the caller")
 
